@@ -736,6 +736,11 @@ func (ex *Exec) applyContract(st *State, c *Contract, fn *types.Func, recv *Val,
 			if !ex.clauseActive(cl) {
 				continue
 			}
+			if ex.contract != nil && strings.HasSuffix(ex.contract.Func, "#locks") && !strings.HasPrefix(cl.Name, "lock") {
+				// a synthesized lock-discipline contract carries no functional preconditions of its own, so it
+				// cannot be asked to establish the callee's: only the callee's lock preconditions are demanded
+				continue
+			}
 			ex.curClause = c.Func + ": requires " + cl.Text
 			g := ex.eval(st, cl.Expr, sc)
 			name := cl.Name
